@@ -273,10 +273,27 @@ pub fn run_par(a: &Args) {
         if focus_cache { s.cache = true; s.w = WE::F(*rng.pick(&[1usize, 1, 2])); if rng.chance(3, 4) { s.nodup = false; } }
         if focus_dom { s.w = WE::F(*rng.pick(&[1usize, 2, 2])); }
         if rng.chance(1, 6) { if let Some(p) = random_solution(&fam, &mut rng) { s.primal = Some(p); } }
-        if cutoff { s.stop_at = Some(rng.range(1, 14) as usize); }
-        let threads = *rng.pick(&[1usize, 2, 2, 2, 3, 3, 4]);
+        // cutoffs: early ones (the first compilations) and late ones (several workers hold nodes, the incumbent has moved
+        // since they read it: the abort bound must still cover the optimum)
+        if cutoff { s.stop_at = Some(if rng.chance(1, 2) { rng.range(1, 14) } else { rng.range(10, 40) } as usize); }
+        let threads = if cutoff { *rng.pick(&[1usize, 2, 2, 3, 3, 4, 4]) } else { *rng.pick(&[1usize, 2, 2, 2, 3, 3, 4]) };
         let built_with = if resize { *rng.pick(&[1usize, 2, 4, 8]) } else { threads };
         let cfg = PCfg { s, threads, built_with, policy: rng.next() >> 1, choices: None, cache_yield: if focus_cache { rng.chance(2, 3) } else { rng.chance(1, 3) } };
+        // late cutoffs: the same schedule is first run uninterrupted (K polls), then cut at each of its last polls - where
+        // the incumbent is (nearly) final and the workers hold nodes whose bounds it has overtaken
+        let mut variants: Vec<(PCfg, bool)> = vec![];
+        if cutoff && rng.chance(1, 2) {
+            let mut c0 = cfg.clone(); c0.s.stop_at = None;
+            let p0 = run_scheduled(&fam, &c0);
+            if p0.fin.is_some() && !p0.deadlock && p0.polls >= 2 {
+                for back in 0..(p0.polls - 1).min(10) {
+                    let mut c = cfg.clone(); c.choices = Some(p0.choices.clone()); c.s.stop_at = Some(p0.polls - back);
+                    variants.push((c, true));
+                }
+            }
+        }
+        if variants.is_empty() { variants.push((cfg, false)); }
+        for (cfg, late) in variants {
         let pr = run_scheduled(&fam, &cfg);
         let mut tags = vec![format!("threads{}", threads), ["lel", "frontier", "pooled"][cfg.s.kind].to_string(), if cfg.s.cache { "cache".into() } else { "nocache".into() }];
         if pr.tape.iter().any(|e| e.ends_with(" WAIT")) { tags.push("wait".into()); }
@@ -286,9 +303,11 @@ pub fn run_par(a: &Args) {
         if cfg.s.stop_at.is_some() && pr.fin.as_ref().map_or(false, |f| !f.0) { tags.push("cutoff".into()); }
         if cfg.built_with != cfg.threads { tags.push("resized".into()); }
         if cfg.cache_yield { tags.push("cache_yield".into()); }
+        if late { tags.push("late_cutoff".into()); }
         // the replayable configuration carries the explicit choice sequence
         let mut rcfg = cfg.clone(); rcfg.choices = Some(pr.choices.clone());
         out.case_tagged(&format!("{} | {}", fam.tokens(), rcfg.tokens()), &prun_tok(&pr), &tags.join(" "));
+        }
         if bad > 40 { break; } // abandoned runs leak parked threads: bound them per process
     }
     out.finish();
